@@ -152,6 +152,15 @@ class Registry:
         _, vars_, guard, elt, coll = q
         k, v = elt
         d = eng.new_dict(eng.value_type(k), eng.value_type(v))
+        if (len(vars_) == 1 and isinstance(k, SV) and k.t.eq(vars_[0]) and isinstance(coll, (DictV, ValuesView))
+                and isinstance(v, (SV, HeapVal))):
+            # {key: f(key, value) for key[, value] in d[.items()] if c(key, value)}: the keys are distinct, so the result
+            # is exactly "has[key] iff selected, val[key] = f(key, value)"
+            hn, ha = eng.dict_has(d)
+            eng.heap.set(hn, z3.Store(ha, d.ref, eng.def_array(vars_, guard)))
+            vn, va = eng.dict_val(d)
+            eng.heap.set(vn, z3.Store(va, d.ref, eng.def_array(vars_, eng.coerce_term(v, d.vty))))
+            return d
         hn, ha = eng.dict_has(d)
         eng.heap.set(hn, z3.Store(ha, d.ref, eng.run.fresh('dc_has', ha[d.ref].sort())))
         vn, va = eng.dict_val(d)
